@@ -25,34 +25,76 @@ def preds(fn):
 def reachable(fn, start=0, avoid_blocks=(), avoid_edges=()):
     avoid_blocks = set(avoid_blocks); avoid_edges = set(avoid_edges)
     if start in avoid_blocks: return set()
+    ck = None
+    if not avoid_edges and len(avoid_blocks) <= 1:
+        ck = (start, next(iter(avoid_blocks)) if avoid_blocks else None)
+        rc = fn.d.setdefault("_reach", {})
+        if ck in rc: return rc[ck]
     seen = {start}; q = deque([start])
     while q:
         b = q.popleft()
         for s in succs(fn, b):
             if s in seen or s in avoid_blocks or (b, s) in avoid_edges: continue
             seen.add(s); q.append(s)
+    if ck is not None: fn.d["_reach"][ck] = seen
     return seen
 
+class _Dom(dict):
+    """block -> set of dominators (including itself), materialised lazily from the immediate-dominator tree"""
+    def __init__(self, idom, reach):
+        super().__init__()
+        self.idom = idom; self.reach = reach
+    def __missing__(self, b):
+        if b not in self.reach: raise KeyError(b)
+        out = {b}; x = b
+        while self.idom.get(x) is not None and self.idom[x] != x:
+            x = self.idom[x]; out.add(x)
+        self[b] = out
+        return out
+    def get(self, b, default=None):
+        try: return self[b]
+        except KeyError: return default
+    def __contains__(self, b): return b in self.reach
+    def keys(self): return self.reach
+    def __iter__(self): return iter(self.reach)
+
 def dominators(fn):
-    """dom[b] = set of blocks dominating b (including b), over blocks reachable from 0"""
-    reach = reachable(fn)
-    order = sorted(reach)
+    """dom[b] = set of blocks dominating b (including b), over blocks reachable from 0 (Cooper-Harvey-Kennedy; cached per fn)"""
+    c = fn.d.get("_dom")
+    if c is not None: return c
+    # reverse postorder
+    order = []; seen = {0}; stack = [(0, iter(succs(fn, 0)))]
+    while stack:
+        b, it = stack[-1]
+        adv = False
+        for s_ in it:
+            if s_ not in seen:
+                seen.add(s_); stack.append((s_, iter(succs(fn, s_)))); adv = True; break
+        if not adv:
+            order.append(b); stack.pop()
+    rpo = order[::-1]
+    num = {b: i for i, b in enumerate(rpo)}
     pr = preds(fn)
-    dom = {b: set(order) for b in order}
-    dom[0] = {0}
+    idom = {0: 0}
     changed = True
     while changed:
         changed = False
-        for b in order:
-            if b == 0: continue
-            ps = [p for p in pr[b] if p in reach]
-            new = set(order)
-            for p in ps:
-                new &= dom[p]
-            new |= {b}
-            if new != dom[b]:
-                dom[b] = new; changed = True
-    return dom
+        for b in rpo[1:]:
+            new = None
+            for p_ in pr[b]:
+                if p_ not in idom: continue
+                if new is None: new = p_
+                else:
+                    x, y = p_, new
+                    while x != y:
+                        while num[x] > num[y]: x = idom[x]
+                        while num[y] > num[x]: y = idom[y]
+                    new = x
+            if new is not None and idom.get(b) != new:
+                idom[b] = new; changed = True
+    d = _Dom(idom, set(rpo))
+    fn.d["_dom"] = d
+    return d
 
 def return_blocks(fn):
     return [bi for bi, b in enumerate(fn.blocks) if b["t"][0] == "ret" and not b["cleanup"]]
@@ -304,7 +346,9 @@ def _describe_place(fn, place, transparent, depth):
     defs = local_defs(fn).get(local, [])
     if len(defs) != 1 or depth > 8:
         return ("unknown", "multi-def" if defs else "no-def", local)
-    d = defs[0]
+    return _describe_def(fn, defs[0], local, transparent, depth)
+
+def _describe_def(fn, d, local, transparent, depth):
     if d[0] == "call":
         t = fn.blocks[d[1]]["t"]
         return ("call", callee(t), t, d[1])
@@ -327,7 +371,7 @@ def _describe_place(fn, place, transparent, depth):
         return ("const", rv[1][1])
     return ("unknown", rv[0], local)
 
-def guards_of(fn, block):
+def guards_of(fn, block, _depth=0):
     """[(description, polarity_values)] for every dominating condition of `block`.
     polarity for bool switches: True/False; for enum discriminants: set of variant names."""
     res = []
@@ -352,8 +396,38 @@ def guards_of(fn, block):
         # normalise Not
         while desc[0] == "not" and isinstance(pol, bool):
             desc = desc[1]; pol = not pol
+        if desc[0] == "unknown" and desc[1] == "multi-def" and isinstance(pol, bool) and _depth < 6:
+            th = _thread_bool(fn, desc[2], pol, _depth)
+            if th:
+                res.extend(th); continue
         res.append((desc, pol, d))
     return res
+
+def _thread_bool(fn, local, pol, depth):
+    """jump threading for `let ok = a && b; if ok {..}` and for inlined bool helpers: the switched local has constant
+    definitions that all differ from the outcome taken and exactly one other definition, so that one produced the outcome
+    and the conditions for reaching it held too."""
+    defs = local_defs(fn).get(local, [])
+    consts = []; others = []
+    for d in defs:
+        if d[0] == "s" and len(d[3]) == 1 and d[4][0] == "use" and d[4][1][0] == "c" and d[4][1][1].get("k") == "bool": consts.append(bool(d[4][1][1]["v"]))
+        else: others.append(d)
+    if len(others) != 1 or any(c == pol for c in consts): return None
+    real = others[0]
+    if real[0] not in ("call", "s") or (real[0] == "s" and len(real[3]) != 1): return None
+    desc = _describe_def(fn, real, local, TRANSPARENT, 0)
+    p = pol
+    while desc[0] == "not":
+        desc = desc[1]; p = not p
+    out = []
+    if desc[0] == "unknown" and desc[1] == "multi-def":
+        sub = _thread_bool(fn, desc[2], p, depth + 1)
+        if sub is None: return None
+        out.extend(sub)
+    else:
+        out.append((desc, p, real[1]))
+    out.extend(guards_of(fn, real[1], _depth=depth + 1))
+    return out
 
 # ---------------------------------------------------------------------------
 # call graph
@@ -689,6 +763,71 @@ class SymPath:
         return ("unknown", k)
     def ret(self):
         return self.env.get(0, ("unset",))
+    def facts(self):
+        """path conditions in normal form: [(atom, truth, block)].  For bool switches truth is True/False with `Not` peeled off
+        the atom; for other discriminants truth is the pair (rel, vals)."""
+        out = []
+        for d, (rel, vals), b in self.conds:
+            t = self.fn.blocks[b]["t"]
+            is_bool = len(t) > 4 and t[4] == "bool"
+            if d[0] == "discr" or not is_bool and not (d[0] in ("call", "un", "bin", "const") and set(vals) <= {0, 1}):
+                out.append((d, (rel, vals), b)); continue
+            truth = not ((rel == "eq" and 0 in vals) or (rel == "ne" and 0 not in vals))
+            while isinstance(d, tuple) and d[0] == "un" and d[1] == "Not":
+                d = d[2]; truth = not truth
+            out.append((d, truth, b))
+        return out
+    def feasible(self):
+        """False when the path contradicts itself: a constant condition taking the other edge, one pure atom with both truths,
+        or an Option seen as Some by is_some()/is_none() and as None by its discriminant (or the reverse)."""
+        seen = {}; opt = {}
+        for d, truth, b in self.facts():
+            if isinstance(truth, bool):
+                if d[0] == "const" and isinstance(d[1], (bool, int)):
+                    if bool(d[1]) != truth: return False
+                    continue
+                k = repr(d)
+                if k in seen and seen[k] != truth: return False
+                seen[k] = truth
+                if d[0] == "call" and isinstance(d[1], str) and d[1].endswith("Option::<T>::is_some"): s_ = repr(d[2][0]); v = truth
+                elif d[0] == "call" and isinstance(d[1], str) and d[1].endswith("Option::<T>::is_none"): s_ = repr(d[2][0]); v = not truth
+                else: continue
+                if s_ in opt and opt[s_] != v: return False
+                opt[s_] = v
+            else:
+                rel, vals = truth
+                if d[0] == "discr":
+                    ty = self.fn.blocks[b]["s"][-1][2][2] if self.fn.blocks[b]["s"] and self.fn.blocks[b]["s"][-1][0] == "=" and self.fn.blocks[b]["s"][-1][2][0] == "discr" else ""
+                    inner = d[1]
+                    if inner[0] == "agg" and not str(inner[1]).startswith(("tuple", "array")):
+                        # discriminant of a value constructed on this path: only its own variant is feasible
+                        st = self.fn.blocks[b]["s"][-1] if self.fn.blocks[b]["s"] else None
+                        names = {n_: v_ for v_, n_ in (st[2][3] if st and st[0] == "=" and st[2][0] == "discr" and len(st[2]) > 3 else [])}
+                        idx = names.get(str(inner[1]).rsplit("::", 1)[-1])
+                        if idx is not None:
+                            if rel == "eq" and idx not in vals: return False
+                            if rel == "ne" and idx in vals: return False
+                        continue
+                    if "Option<" in str(ty):
+                        v = (rel == "eq" and tuple(vals) == (1,)) or (rel == "ne" and 0 in vals and 1 not in vals)
+                        s_ = repr(inner)
+                        if s_ in opt and opt[s_] != v: return False
+                        opt[s_] = v
+                k = repr(d)
+                if rel == "eq":
+                    if k in seen and isinstance(seen[k], tuple) and seen[k][0] == "eq" and set(seen[k][1]).isdisjoint(vals): return False
+                    seen[k] = ("eq", tuple(vals))
+        return True
+
+def sym_paths(fn, limit=20000, feasible_only=True):
+    """SymPath for every acyclic path of fn that ends in a return (infeasible ones dropped)"""
+    out = []
+    for p in enum_paths(fn, limit=limit):
+        if fn.blocks[p[-1]]["t"][0] != "ret": continue
+        sp = SymPath(fn, p)
+        if feasible_only and not sp.feasible(): continue
+        out.append(sp)
+    return out
 
 def show(e, depth=0):
     """compact text of a symbolic expression"""
@@ -765,6 +904,8 @@ PASS_THROUGH = TRANSPARENT + (
     "chrono::DateTime::<Tz>::timestamp", "std::option::Option::<T>::unwrap", "std::option::Option::<T>::expect",
     "std::option::Option::<T>::map", "std::result::Result::<T, E>::unwrap", "as std::ops::Try>::branch",
     "std::option::Option::<T>::unwrap_or", "std::option::Option::<T>::or",
+    "std::result::Result::<T, E>::ok", "std::option::Option::<T>::filter", "std::result::Result::<T, E>::map_err",
+    "std::option::Option::<T>::ok_or", "std::option::Option::<T>::ok_or_else", "std::result::Result::<T, E>::unwrap_or",
 )
 
 def _reads(op, local):
@@ -892,4 +1033,189 @@ def field_sources(F, fn, op, depth=0, seen=None):
             out.add("upvar:" + str(o.data))
             r = resolve_upvar(F, o)
             if r is not None: out |= field_sources(F, r[0], r[1], depth + 1, seen)
+    return out
+
+# ---------------------------------------------------------------------------
+# inlining of crate-local helpers: rules that reason about paths, guards and origins see through "extract helper" refactors
+
+def _ip(p, L):
+    out = [p[0] + L]
+    for e in p[1:]:
+        if isinstance(e, list) and e and e[0] == "i": out.append(["i", e[1] + L] + list(e[2:]))
+        else: out.append(e)
+    return out
+
+def _io(o, L):
+    if isinstance(o, list) and o and o[0] in ("cp", "mv"): return [o[0], _ip(o[1], L)]
+    return o
+
+def _irv(rv, L):
+    k = rv[0]
+    if k == "use": return ["use", _io(rv[1], L)]
+    if k == "ref": return ["ref", rv[1], _ip(rv[2], L)] + list(rv[3:])
+    if k == "cast": return ["cast", rv[1], _io(rv[2], L)] + list(rv[3:])
+    if k == "bin": return ["bin", rv[1], _io(rv[2], L), _io(rv[3], L)] + list(rv[4:])
+    if k == "un": return ["un", rv[1], _io(rv[2], L)] + list(rv[3:])
+    if k == "discr": return ["discr", _ip(rv[1], L)] + list(rv[2:])
+    if k == "agg": return ["agg", rv[1], [_io(o, L) for o in rv[2]]] + list(rv[3:])
+    if k in ("len", "ptrmeta") and len(rv) > 1 and isinstance(rv[1], list): return [k, _ip(rv[1], L)] + list(rv[2:])
+    return rv
+
+def _iterm(t, L, B, ret_to):
+    k = t[0]
+    if k == "goto": return ["goto", t[1] + B]
+    if k == "switch": return ["switch", _io(t[1], L), [[v, b + B] for v, b in t[2]], t[3] + B] + list(t[4:])
+    if k == "call":
+        c = dict(t[1])
+        if "indirect" in c: c["indirect"] = _io(c["indirect"], L)
+        return ["call", c, [_io(a, L) for a in t[2]], _ip(t[3], L), (t[4] + B if t[4] is not None else None)] + list(t[5:])
+    if k == "assert": return ["assert", _io(t[1], L), t[2], t[3], t[4] + B] + list(t[5:])
+    if k == "drop": return ["drop", _ip(t[1], L), t[2] + B] + list(t[3:])
+    if k == "ret": return ["goto", ret_to]
+    return t
+
+def default_inline_ok(F, caller_path, callee_path, g):
+    """crate-local plain functions / methods with a body, reasonably small; never trait-dispatched externals"""
+    return callee_path.startswith("crate::") and g is not None and g.kind != "closure" and len(g.blocks) <= 400
+
+def inlined(F, fn, keep=(), depth=3, ok=default_inline_ok, _stack=()):
+    """A copy of `fn` in which calls to crate-local helpers are replaced by the helper's body (locals and blocks renumbered,
+    parameters assigned from the arguments, `return` turned into a jump to the call's continuation).  `keep`: last path
+    segments (or full paths) that must stay opaque calls.  Recursion and anything beyond `depth` stays a call.
+    The result is a facts.Fn over a fresh dict: d["inlined"] lists the spliced callees, spliced blocks carry "from"."""
+    import facts as _facts
+    cache = fn.d.setdefault("_inl", {})
+    ck = (tuple(sorted(keep)), depth, getattr(ok, "__name__", "ok"))
+    if not _stack and ck in cache: return cache[ck]
+    d = {k: v for k, v in fn.d.items() if k not in ("_defs", "_inl", "_dom", "_reach")}
+    blocks = [dict(b) for b in fn.blocks]
+    locals_ = list(fn.locals)
+    dbg = list(fn.dbg)
+    spliced = []
+    stack = _stack + (fn.path,)
+    bi = 0
+    nblocks0 = len(blocks)
+    work = [(i, depth) for i in range(nblocks0)]
+    while work:
+        bi, dleft = work.pop(0)
+        b = blocks[bi]
+        t = b["t"]
+        if t[0] != "call" or b.get("cleanup") or dleft <= 0: continue
+        cp = callee(t)
+        if not cp or cp in stack: continue
+        if cp in keep or cp.rsplit("::", 1)[-1] in keep: continue
+        g = F.fn(cp)
+        if not ok(F, fn.path, cp, g): continue
+        if len(t[2]) != g.nargs: continue
+        L = len(locals_); B = len(blocks)
+        locals_.extend(g.locals)
+        for name, val in g.dbg:
+            if isinstance(val, list): dbg.append((name, _ip(val, L)))
+        ret_to = t[4]
+        if ret_to is None:
+            # diverging call: splice anyway, returns go to an unreachable block
+            blocks.append({"s": [], "t": ["unreachable"], "line": b["line"], "exp": b.get("exp", False), "cleanup": False, "from": cp})
+            ret_to = len(blocks) - 1; B = len(blocks)
+        # continuation: dest = callee _0, then the original target
+        cont = {"s": [["=", t[3], ["use", ["mv", [L]]], b["line"]]], "t": ["goto", ret_to], "line": b["line"], "exp": b.get("exp", False), "cleanup": False, "from": cp, "inl_ret": cp}
+        blocks.append(cont); cont_i = len(blocks) - 1
+        B = len(blocks)
+        for gj, gb in enumerate(g.blocks):
+            nb = {"orig": gb.get("orig") or (cp, gj), "s": [(["=", _ip(s[1], L), _irv(s[2], L)] + list(s[3:])) if s[0] == "=" else s for s in gb["s"]],
+                  "t": _iterm(gb["t"], L, B, cont_i), "line": gb["line"], "exp": gb.get("exp", False), "cleanup": gb["cleanup"], "from": cp}
+            blocks.append(nb)
+        # the call block: assign parameters, jump to the callee's entry
+        nb = dict(b)
+        nb["s"] = list(b["s"]) + [["=", [L + i + 1], ["use", a], b["line"]] for i, a in enumerate(t[2])]
+        nb["t"] = ["goto", B]
+        nb["inl_call"] = {"callee": cp, "info": t[1], "args": t[2], "dest": t[3]}
+        blocks[bi] = nb
+        spliced.append(cp)
+        stack_here = stack + (cp,)
+        for j in range(B, len(blocks)): work.append((j, dleft - 1))
+    d["blocks"] = blocks; d["locals"] = locals_; d["dbg"] = dbg; d["inlined"] = spliced
+    out = _facts.Fn(d)
+    if not _stack: cache[ck] = out
+    return out
+
+def closures_in(F, fn):
+    """closure bodies constructed (aggregate of closure kind) anywhere in fn's (possibly inlined) body, transitively"""
+    out = []; seen = set()
+    work = [fn]
+    while work:
+        g = work.pop()
+        for bi, si, st in g.stmts():
+            if st[0] == "=" and st[2][0] == "agg" and isinstance(st[2][1], dict) and st[2][1].get("k") == "closure":
+                p = st[2][1]["path"]
+                if p not in seen:
+                    seen.add(p); c = F.fn(p)
+                    if c is not None: out.append(c); work.append(c)
+        # closures passed as fn-item constants / named in child paths are found through F.children by the callers that need them
+    return out
+
+def dominating_filter_closures(F, fn, block, elem=None):
+    """closures of `.filter(..)` adaptors feeding a `next()` whose Some-arm dominates `block` (a `for x in it.filter(p)` body):
+    inside such a body p(x) held for the element."""
+    out = []
+    dom = dominators(fn).get(block, ())
+    for d in dom:
+        t = fn.blocks[d]["t"]
+        if t[0] != "call" or not (callee(t) or "").endswith("as std::iter::Iterator>::next"): continue
+        ty = (t[1].get("targs") or [""])[0]
+        if "Filter<" not in ty: continue
+        if elem is not None and ("call", str(d)) not in elem: continue        # the value of interest is not this iterator's element
+        # the filter call(s) this iterator comes from
+        seen = set(); work = [t[2][0]]
+        while work:
+            op = work.pop()
+            for o in trace_op(fn, op, transparent=TRANSPARENT + ("IntoIterator>::into_iter", "::into_iter", "::by_ref")):
+                if o.kind != "call" or (o.fn.path, o.data) in seen: continue
+                seen.add((o.fn.path, o.data))
+                t2 = o.fn.blocks[o.data]["t"]; c2 = callee(t2) or ""
+                if c2.endswith("Iterator::filter"):
+                    for o3 in trace_op(fn, t2[2][1], transparent=()):
+                        if o3.kind == "agg":
+                            rv = rv_at(o3.fn, *o3.data)
+                            if rv[1].get("k") == "closure" and F.fn(rv[1]["path"]) is not None: out.append(F.fn(rv[1]["path"]))
+                    work.append(t2[2][0])
+                elif any(c2.endswith(x) for x in ("Iterator::map", "Iterator::enumerate", "Iterator::rev", "Iterator::skip", "Iterator::take", "Iterator::peekable", "Iterator::chain")) and t2[2]:
+                    work.append(t2[2][0])
+    return out
+
+def closure_is_nonempty_test(c):
+    """closure body is `!x.is_empty()` on its parameter (single path, one is_empty call, result = Not of it)"""
+    try:
+        sps = sym_paths(c, limit=50)
+    except TooManyPaths:
+        return False
+    if not sps: return False
+    for sp in sps:
+        r = sp.ret(); neg = False
+        while isinstance(r, tuple) and r[0] == "un" and r[1] == "Not": r = r[2]; neg = not neg
+        if r[0] == "const":
+            # `if x.is_empty() { false } else { true }` style: constant result under a recorded is_empty fact
+            emp = [tr for d, tr, b in sp.facts() if d[0] == "call" and str(d[1]).endswith("::is_empty")]
+            if len(emp) == 1 and isinstance(emp[0], bool) and bool(r[1]) == (not emp[0]): continue
+            return False
+        if not (r[0] == "call" and str(r[1]).endswith("::is_empty") and neg): return False
+    return True
+
+def deep_origins(fn, op, depth=0, seen=None, stop=("as std::iter::Iterator>::next",)):
+    """(kind, data) of every origin the value of `op` is computed from, following call arguments and aggregate fields
+    (but not through `stop` calls: the element an iterator yields is not the collection it walks)"""
+    if seen is None: seen = set()
+    out = set()
+    if depth > 10: return out
+    for o in trace_op(fn, op, transparent=()):
+        k = (o.kind, str(o.data))
+        out.add(k)
+        if k in seen: continue
+        seen.add(k)
+        if o.kind == "call":
+            t = o.fn.blocks[o.data]["t"]
+            if any((callee(t) or "").endswith(x) for x in stop): continue
+            for a in t[2]: out |= deep_origins(o.fn, a, depth + 1, seen, stop)
+        elif o.kind == "agg":
+            rv = rv_at(o.fn, *o.data)
+            for a in rv[2]: out |= deep_origins(o.fn, a, depth + 1, seen, stop)
     return out
